@@ -5,6 +5,7 @@ use crate::Ctx;
 
 pub mod diag;
 pub mod dispatch;
+pub mod adapter;
 pub mod codes;
 pub mod modelval;
 pub mod readers;
@@ -23,6 +24,7 @@ pub fn run(id: &str, ctx: &Ctx) -> (CheckMeta, Outcome) {
         "C08" => writers::c08(ctx),
         "C09" => readers::c09(ctx),
         "C10" => dispatch::c10(ctx),
+        "C11" => adapter::c11(ctx),
         "C12" => writers::c12(ctx),
         _ => {
             println!("unknown property {}", id);
@@ -46,6 +48,7 @@ pub fn replay_file(path: &str) -> i32 {
             "item" => crate::streams::replay_item(r, &diag),
             "len" => codes::replay_len(r),
             "disp" => dispatch::replay(r),
+            "adapter-env" | "adapter-cursor" => adapter::replay(r),
             k => (vec![format!("unknown replay kind {:?}", k)], false),
         }
     };
